@@ -165,6 +165,9 @@ func (w *World) mirrorOracle() {
 		return
 	}
 	fresh, err := storage.NewDiskStorage("relation", filepath.Join(tmp, "ResRelation.db"), nil, resDeserializer)
+	if err == nil {
+		trackDB(fresh)
+	}
 	if err != nil {
 		w.run.Violate("C05", "durability", "database-unreadable", "fresh open of the database file failed: %v", err)
 		return
